@@ -12,6 +12,7 @@
 package main
 
 import (
+	"os"
 	"fmt"
 	"math/rand"
 	"sort"
@@ -368,6 +369,15 @@ func run(c *drv.Ctx) error {
 			style = nj.StyleMixed
 		}
 		jobs = append(jobs, job{name: fmt.Sprintf("random-%03d", i), seed: c.Rand.Int63(), style: style, intfloat: i%5 == 4, nops: nops})
+	}
+	if only := os.Getenv("C16_ONLY"); only != "" { // debugging aid: one named sequence (seeds are drawn above, so it is the same sequence)
+		var f []job
+		for _, j := range jobs {
+			if j.name == only {
+				f = append(f, j)
+			}
+		}
+		jobs = f
 	}
 	for i := range jobs {
 		jobs[i].idx = i
